@@ -1057,6 +1057,73 @@ def rules(rep, m):
         else:
             r9.ok()
 
+    # R-C18-10 -----------------------------------------------------------
+    r10 = rep.rule("R-C18-10", "the histogram report scales its bars by the largest bin, which is zero when every bin is empty "
+                   "(a time series whose samples all have zero duration): every division by that scale - in the printer or "
+                   "in a helper it hands the scale to - is under a test that the divisor is positive, in the helper or around "
+                   "every call of it; otherwise 0/0 = NaN becomes the bar length", floor=1)
+    pr = m.need("cmi_dataset_histogram_print")
+
+    def pos_tests(c):
+        return ("(%s > 0)" % c, "(%s > 0.0)" % c, "!(%s <= 0)" % c, "!(%s <= 0.0)" % c, "(0 < %s)" % c, "(0.0 < %s)" % c)
+
+    def nonzero_const(cx_, n_):
+        n_ = cx_.resolve(n_)
+        v = float_value(n_) if n_["kind"] in ("IntegerLiteral", "FloatingLiteral") else None
+        return v is not None and v != 0
+
+    def guarded(cx_, f_, node, expr, depth=0):
+        """the value of `expr` is known positive where `node` executes"""
+        conds = inv.dominating_conditions(cx_, f_, node)
+        e0 = strip(expr, casts=True)
+        names = {render(e0), cx_.canon(e0)}
+        if any(t in conds for nm_ in names for t in pos_tests(nm_)):
+            return True
+        # a scale computed as (positive quantity) / (non-zero constant) or * constant
+        d = cx_.resolve(e0)
+        if d is not e0 and d["kind"] == "BinaryOperator" and d.get("opcode") in ("/", "*") and nonzero_const(cx_, kids(d)[1]) and depth < 4:
+            return guarded(cx_, f_, node, kids(d)[0], depth + 1)
+        return False
+
+    seen = set()
+    work = [pr]
+    while work:
+        f = work.pop()
+        if f.name in seen:
+            continue
+        seen.add(f.name)
+        cx = FuncCtx(m, f)
+        for x in walk(f.body):
+            if x["kind"] == "CallExpr":
+                cal = m.func_named(callee_ref(x) or "")
+                if cal and cal[0].static and cal[0].name not in seen and any("double" in (p_.get("type") or "") for p_ in cal[0].params):
+                    work.append(cal[0])
+            if x["kind"] != "BinaryOperator" or x.get("opcode") != "/":
+                continue
+            dv = kids(x)[1]
+            if nonzero_const(cx, dv):
+                continue
+            r10.instance("%s: / %s" % (f.name, render(dv)))
+            ok = guarded(cx, f, x, dv)
+            d0 = strip(dv, casts=True)
+            if not ok and d0["kind"] == "DeclRefExpr" and d0["ref"].get("kind") == "ParmVarDecl" and f is not pr:
+                # guarded around every call
+                idx = [i for i, p_ in enumerate(f.params) if p_["name"] == d0["ref"]["name"]]
+                sites = inv.calls_to(m, f.name)
+                ok = bool(sites) and bool(idx)
+                for g, c_ in sites:
+                    gx = FuncCtx(m, g)
+                    if not guarded(gx, g, c_, kids(c_)[1 + idx[0]]):
+                        ok = False
+            if ok:
+                r10.ok()
+            else:
+                rep.finding(r10, f.name, "bar:zero-scale", "%s divides by '%s' without a test that it is positive, here or around "
+                            "the calls: with every bin empty (all durations zero) the largest bin and so the scale are 0, the "
+                            "quotient is NaN, and its conversion to an integer makes the bar loop print without end"
+                            % (f.name, render(dv)), where=m.rel(loc(x)))
+                r10.fail()
+
 
 def run(tier="quick"):
     models = common.load_models(tier)
